@@ -102,7 +102,10 @@ class Data(Entity):
             if n_values < self.values.shape[0]:
                 kwargs.update({"values": self.values[mask]})
             else:
-                values = np.ones_like(self.values) * self.nan_value
+                if self.values.dtype.kind in "biuf":
+                    values = np.ones_like(self.values) * self.nan_value
+                else:
+                    values = np.full_like(self.values, self.nan_value)
                 values[mask] = self.values[mask]
 
                 kwargs.update({"values": values})
